@@ -37,6 +37,8 @@ for n in names:
         tests = {}
         for p in pkgs:
             extra = " -check.exclude TestCheckCache" if p == './server/cluster' else ''
+            if p == './server/schedule':  # TestScattersGroup fails on the unchanged tree as well (BASELINE always_fail)
+                extra = " -check.exclude TestScattersGroup"
             rc, out = sh(f'go test -vet=off -count=1 -timeout 20m {p}{extra}', wt)
             tests[p] = 'pass' if rc == 0 else 'FAIL: ' + out[-400:]
         res['existing_tests_with_change'] = tests
